@@ -334,6 +334,14 @@ class GraphInitializers(collections.UserDict[str, "_core.Value"]):
         self._maybe_unset_graph(value)
         super().__delitem__(key)
 
+    def update(self, other=(), /, **kwargs) -> None:
+        """Update the initializers. Every item is checked before any of them is set."""
+        items = dict(other, **kwargs)
+        for key, value in items.items():
+            self._check_item(key, value)
+        for key, value in items.items():
+            self[key] = value
+
     def add(self, value: _core.Value) -> None:
         """Add an initializer to the graph."""
         self[value.name] = value  # type: ignore[index]
